@@ -2,6 +2,7 @@ package main
 
 import (
 	"fmt"
+	"go/types"
 	"strings"
 
 	"golang.org/x/tools/go/ssa"
@@ -153,4 +154,49 @@ func (u *Unit) evalClause(e *SExpr, env *Env) (t Term) {
 		}
 	}()
 	return u.evalBool(e, env)
+}
+
+// evalFieldsEqual: fieldsEqual(a, b) / fieldsEqualExcept(a, b, "F", ...): a and b point to structs of
+// the same type and every exported field (minus the listed ones) is equal. The clause is generated
+// from the struct type, so a field added to the type later is covered automatically.
+func (u *Unit) evalFieldsEqual(e *SExpr, env *Env) Val {
+	a, b := u.eval(e.Args[0], env), u.eval(e.Args[1], env)
+	except := map[string]bool{}
+	for _, x := range e.Args[2:] {
+		except[x.Name] = true
+	}
+	if a.Typ == nil || b.Typ == nil {
+		u.specFail("%s of untyped values", e.Name)
+	}
+	pt, ok := a.Typ.Underlying().(*types.Pointer)
+	if !ok {
+		u.specFail("%s needs pointers to structs", e.Name)
+	}
+	sst, key, ok := u.transparentStruct(pt.Elem())
+	if !ok {
+		u.specFail("%s: %s is not a struct gocv models", e.Name, pt.Elem())
+	}
+	at, bt := u.termOf(a), u.termOf(b)
+	var cs []Term
+	n := 0
+	for i := 0; i < sst.NumFields(); i++ {
+		f := sst.Field(i)
+		if !f.Exported() || except[f.Name()] {
+			continue
+		}
+		n++
+		h := u.heap(env.st, u.fieldHeapName(key, sst, i), arraySort("Int", u.sortOf(f.Type())))
+		x, y := sel(h, at), sel(h, bt)
+		if x.Sort == "Bytes" {
+			cs = append(cs, eq(x, y))
+		} else {
+			cs = append(cs, eq2(x, y))
+		}
+	}
+	for name := range except {
+		if i, _ := findField(sst, name); i < 0 {
+			u.specFail("%s: no field %s in %s", e.Name, name, pt.Elem())
+		}
+	}
+	return Val{T: and(cs...)}
 }
